@@ -68,12 +68,28 @@ def run_case(case, rec):
     common.set_legacy(False)
     if rec.evaluations % 5 == 0:
         common.disturb_encoder(common.RND, 1)
-    c = call(commands.Basic.Properties, **props)
+    late = rec.evaluations % 4 == 1
+    if late:
+        # another legitimate order of calls: wrap an EMPTY property object
+        # in the header first, assign the properties afterwards
+        c = call(commands.Basic.Properties)
+    else:
+        c = call(commands.Basic.Properties, **props)
     if not c.ok:
         rec.count('refused_at_construct')
         rec.note('Properties refused valid values: ' + c.describe())
         return
     h = call(header.ContentHeader, 0, size, c.value)
+    if late and h.ok:
+        for n, v in props.items():
+            setattr(c.value, n, v)
+        rec.count('late_assignment_cases')
+        if h.value.properties is not c.value:
+            rec.violation('header-does-not-hold-given-properties',
+                          'ContentHeader(0, n, props) does not hold the '
+                          'Properties object it was given (props was empty '
+                          'at that moment)', case)
+            return
     if not h.ok:
         rec.violation('header-construct:' + str(h.exc_type),
                       'ContentHeader(...) ' + h.describe(), case)
